@@ -5,4 +5,4 @@ Extraction Language OCaml.
 Extraction "model_yl.ml"
   N.add N.mul N.div N.modulo N.sub Z.add Z.mul Z.opp Z.of_N Z.abs_N Z.sub Z.ltb
   ModHash.modhash ModHash.modhash_gen ModHash.cc_run
-  YangLib.describe YangLib.rebuild YangLib.preload YangLib.settle YangLib.includes_order YangLib.includes_order_gen YangLib.regroup YangLib.initial_ctx YangLib.ctx_obs.
+  YangLib.describe YangLib.rebuild YangLib.preload YangLib.set_impl_op YangLib.load_op YangLib.settle YangLib.includes_order YangLib.includes_order_gen YangLib.regroup YangLib.initial_ctx YangLib.ctx_obs.
